@@ -5,6 +5,7 @@ package main
 
 import (
 	"fmt"
+	"sort"
 	"strconv"
 	"strings"
 )
@@ -22,6 +23,8 @@ type provProfile struct {
 	wVal                                                                   int  // validator creation / removal
 	revisions                                                              bool // chain ids / initial heights with revision 1 or 2
 	faults                                                                 bool // inject failures of external calls before blocks
+	prelaunch                                                              int  // consumers created, opted into and launched before the random part
+	wInfr                                                                  int  // infraction-parameter updates of launched consumers
 	keyPool                                                                int  // number of extra consumer keys (default 10)
 	nvExtra                                                                int  // validator ids that may be created later
 	replenish                                                              int64
@@ -54,6 +57,12 @@ func (p *provRunner) deadlines() []int64 {
 	if c, err := strconv.ParseInt(p.prevG["cand"], 10, 64); err == nil && c < 1000*sec {
 		out = append(out, c)
 	}
+	for id, t := range p.firstDue {
+		if p.prev[id]["phase"] == "4" {
+			out = append(out, t)
+		}
+	}
+	sort.Slice(out, func(a, b int) bool { return out[a] < out[b] })
 	add(p.prevG["spawnq"])
 	add(p.prevG["removeq"])
 	add(p.prevG["infrq"])
@@ -188,7 +197,7 @@ func (p *provRunner) ownerOf(c string) string {
 }
 
 func (p *provRunner) genOne(r *Rng, prof provProfile) string {
-	ws := []int{prof.wCreate, prof.wUpdate, prof.wRemove, prof.wOpt, prof.wAssign, prof.wStake, prof.wBlock, prof.wChan, prof.wSlash, prof.wMisc, prof.wParams, prof.wVal}
+	ws := []int{prof.wCreate, prof.wUpdate, prof.wRemove, prof.wOpt, prof.wAssign, prof.wStake, prof.wBlock, prof.wChan, prof.wSlash, prof.wMisc, prof.wParams, prof.wVal, prof.wInfr}
 	switch pickWeighted(r, ws) {
 	case 0: // create
 		chain := fmt.Sprintf("c%d-1", r.intn(4))
@@ -219,9 +228,32 @@ func (p *provRunner) genOne(r *Rng, prof provProfile) string {
 		return s + genInfr(r)
 	case 1: // update
 		c := p.pickConsumer(r)
+		// a Top-N consumer (owned by governance) is asked to change hands without restating Top-N
+		for _, id := range p.consumerIds() {
+			if ps := p.prev[id]["ps"]; ps != "" && ps != "-" && !strings.HasPrefix(ps, "0/") && r.chance(25) {
+				return fmt.Sprintf("update s=gov c=%s newowner=%s", id, []string{"u0", "u1", "u2"}[r.intn(3)])
+			}
+		}
 		sender := p.ownerOf(c)
 		if r.chance(12) {
 			sender = p.users(r)
+		}
+		// same-length list edits: replace one element of one of the consumer's lists, keep the rest
+		if ps := p.prev[c]["ps"]; ps != "" && ps != "-" && r.chance(15) {
+			f := strings.Split(ps, "/")
+			lists := strings.Split(p.prev[c]["pslists"], "|")
+			if len(f) == 5 && len(lists) == 3 {
+				k := r.intn(3)
+				el := splitNE(lists[k])
+				if len(el) > 0 {
+					el[len(el)-1-r.intn(1+len(el)/2)%len(el)] = strconv.Itoa(r.intn(prof.nv))
+					lists[k] = strings.Join(el, ",")
+				} else {
+					lists[k] = strconv.Itoa(r.intn(prof.nv))
+				}
+				return fmt.Sprintf("update s=%s c=%s ps=1 topn=%s setcap=%s powcap=%s minstake=%s inactive=%s allow=%s deny=%s prio=%s",
+					sender, c, f[0], f[1], f[2], f[3], f[4], lists[0], lists[1], lists[2])
+			}
 		}
 		s := fmt.Sprintf("update s=%s c=%s", sender, c)
 		if r.chance(25) {
@@ -329,6 +361,28 @@ func (p *provRunner) genOne(r *Rng, prof provProfile) string {
 		c := p.pickConsumer(r)
 		v := r.intn(prof.nv)
 		return fmt.Sprintf("commission v=%d c=%s rate=%s signer=%d", v, c, []string{"0.050000000000000000", "0.100000000000000000", "0.010000000000000000", "1.000000000000000000"}[r.intn(4)], v)
+	case 12:
+		// infraction-parameter requests of launched consumers: few distinct values, so that equal
+		// requests (cancel), replacements and several consumers due at the same time are frequent
+		var launched []string
+		for _, id := range p.consumerIds() {
+			if p.prev[id]["phase"] == "3" {
+				launched = append(launched, id)
+			}
+		}
+		if len(launched) == 0 {
+			return fmt.Sprintf("create s=u0 chain=c0-1 init=1 spawn=%d", p.now()+sec)
+		}
+		c := launched[r.intn(len(launched))]
+		fr := []string{"0.000000000000000000", "0.010000000000000000", "0.050000000000000000"}
+		s := fmt.Sprintf("update s=%s c=%s infr=1", p.ownerOf(c), c)
+		if r.chance(70) {
+			s += fmt.Sprintf(" dt=%s:%d", fr[r.intn(3)], []int64{600 * sec, 5 * sec}[r.intn(2)])
+		}
+		if r.chance(50) {
+			s += fmt.Sprintf(" ds=%s:%d:%d", fr[1+r.intn(2)], int64(9223372036854775807), 1)
+		}
+		return s
 	case 11:
 		v := r.intn(prof.nv + prof.nvExtra)
 		if r.chance(60) {
@@ -362,6 +416,27 @@ func (p *provRunner) genKey(r *Rng, prof provProfile) int {
 // occasionally wrong, repeated attempts, and confirmations
 func (p *provRunner) genChan(r *Rng, prof provProfile) string {
 	p.chanSeq++
+	// packets in flight on established channels time out or come back with an error acknowledgement
+	// (repeatedly, at different times: every one of them stops the consumer again)
+	if e := splitNE(p.prevG["chan2c"]); len(e) > 0 && r.chance(30) {
+		ch := e[r.intn(len(e))]
+		// prefer channels of consumers that are already stopped: repeated timeouts of in-flight packets
+		if r.chance(60) {
+			for _, cand := range e {
+				if i := strings.IndexByte(cand, ':'); i > 0 && p.prev[cand[i+1:]]["phase"] == "4" {
+					ch = cand
+					break
+				}
+			}
+		}
+		if i := strings.IndexByte(ch, ':'); i > 0 {
+			ch = ch[:i]
+		}
+		if r.chance(5) {
+			ch = "channel-999"
+		}
+		return fmt.Sprintf("%s ch=%s seq=%d", []string{"timeout", "timeout", "ackerr", "ackok"}[r.intn(4)], ch, p.chanSeq)
+	}
 	// pending TRYOPEN channels get confirmed
 	if len(p.tryChans) > 0 && r.chance(45) {
 		i := r.intn(len(p.tryChans))
@@ -521,6 +596,20 @@ func genProv(prof provProfile) func(r *Rng, run Runner, n int, tier string) {
 			wk += fmt.Sprintf(" replenish=%d frac=%s", prof.replenish, prof.frac)
 		}
 		run.Do(fmt.Sprintf("init maxvals=%d M=%d epoch=%d unb=%d conns=%d tokens=%s%s", prof.maxvals, prof.M, prof.epoch, prof.unb, prof.conns, strings.Join(toks, ","), wk))
+		if prof.prelaunch > 0 {
+			// ids 0..prelaunch-1 (so that "1" and "10", "11" coexist), all launched in the first blocks
+			for i := 0; i < prof.prelaunch; i++ {
+				run.Do(fmt.Sprintf("create s=u%d chain=c%d-1 init=1 spawn=%d ps=1 topn=0 setcap=0 powcap=0 minstake=0 inactive=1 allow= deny= prio=", i%3, i%4, 2*sec+int64(i%3)))
+				run.Do(fmt.Sprintf("optin v=%d c=%d key=- signer=%d", i%prof.nv, i, i%prof.nv))
+				if r.chance(50) {
+					v2 := (i + 1) % prof.nv
+					run.Do(fmt.Sprintf("optin v=%d c=%d key=- signer=%d", v2, i, v2))
+				}
+			}
+			run.Do("stkend")
+			run.Do("end")
+			run.Do(fmt.Sprintf("begin dh=1 dt=%d", 3*sec))
+		}
 		for i := 0; i < n; i++ {
 			s := p.genOne(r, prof)
 			if s == "" {
@@ -530,13 +619,17 @@ func genProv(prof provProfile) func(r *Rng, run Runner, n int, tier string) {
 					run.Do(fmt.Sprintf("fail call=%s nth=%d", []string{"channel.SendPacket", "channel.ChanCloseInit"}[r.intn(2)], 1+r.intn(2)))
 				}
 				run.Do("end")
-				run.Do("clearfail")
+				if prof.faults {
+					run.Do("clearfail")
+				}
 				if prof.faults && r.chance(35) {
 					calls := []string{"client.CreateClient", "connection.GetConnection", "client.GetClientState", "staking.GetHistoricalInfo", "staking.UnbondingTime", "channel.ChanCloseInit"}
 					run.Do(fmt.Sprintf("fail call=%s nth=%d", calls[r.intn(len(calls))], 1+r.intn(3)))
 				}
 				run.Do(fmt.Sprintf("begin dh=1 dt=%d", p.genDt(r)))
-				run.Do("clearfail")
+				if prof.faults {
+					run.Do("clearfail")
+				}
 				continue
 			}
 			run.Do(s)
@@ -564,5 +657,11 @@ func init() {
 	faults := provProfile{name: "faults", nv: 5, maxvals: 5, M: 4, epoch: 2, unb: 15 * sec, conns: 2, revisions: true, faults: true,
 		wCreate: 14, wUpdate: 16, wRemove: 6, wOpt: 20, wAssign: 3, wStake: 5, wBlock: 26, wChan: 12}
 	streams["faults"] = StreamDef{New: func(t *Trace) Runner { return newProvRunner(t) }, Gen: genProv(faults)}
+	iso := provProfile{name: "isolation", nv: 5, maxvals: 5, M: 4, epoch: 1, unb: 10 * sec, keyPool: 6, prelaunch: 13,
+		wCreate: 1, wUpdate: 8, wRemove: 3, wOpt: 18, wAssign: 26, wStake: 8, wBlock: 26, wInfr: 6}
+	streams["isolation"] = StreamDef{New: func(t *Trace) Runner { return newProvRunner(t) }, Gen: genProv(iso)}
+	inf := provProfile{name: "infraction", nv: 4, maxvals: 4, M: 4, epoch: 2, unb: 8 * sec, prelaunch: 5,
+		wCreate: 2, wUpdate: 6, wRemove: 1, wOpt: 6, wStake: 3, wBlock: 22, wInfr: 40}
+	streams["infraction"] = StreamDef{New: func(t *Trace) Runner { return newProvRunner(t) }, Gen: genProv(inf)}
 	streams["epoch"] = StreamDef{New: func(t *Trace) Runner { return newProvRunner(t) }, Gen: genProv(ep)}
 }
